@@ -29,6 +29,8 @@ func c19(w *core.World, r *core.Report) {
 	ruleSenderRetry(w, r)
 	r.Rule("R19.12", "transactional mode on a cluster target: a batch answered with MOVED, ASK or CROSSSLOT is never sent again within the run", 1)
 	ruleNoResendAfterRedirect(w, r)
+	r.Rule("R19.13", "a node's request queue is filled in dispatch order: the submitting goroutine does the send itself", 1)
+	ruleNodeQueueOrder(w, r)
 	r.Rule("R19.4", "per-node order: append-only lists, forward send/receive, index reassembly", 4)
 	rulePerNodeOrder(w, r)
 	r.Rule("R19.5", "transaction re-dispatched only after a resolved redirect, bounded, commands untouched", 3)
@@ -1027,4 +1029,67 @@ func factsBefore(p *core.Path, at ssa.Instruction) []core.Fact {
 		}
 	}
 	return out
+}
+
+// ---------------------------------------------------------------- R19.13 a node's queue is filled in dispatch order
+
+// ruleNodeQueueOrder: commands of one node are executed in the order they
+// enter its request queue. That is the dispatcher's order only if the
+// goroutine that calls Submit does the send itself: a send handed to a
+// background goroutine (to avoid blocking on a full queue) lets a later
+// request overtake an earlier one, and two writes of one key reach the owner
+// in the wrong order.
+func ruleNodeQueueOrder(w *core.World, r *core.Report) {
+	n := 0
+	isQueue := func(v ssa.Value) bool {
+		ld, ok := core.Unwrap(v).(*ssa.UnOp)
+		if !ok || ld.Op != token.MUL {
+			return false
+		}
+		fa, ok := ld.X.(*ssa.FieldAddr)
+		return ok && core.FieldName(fa) == "reqCh" && strings.HasSuffix(core.TypeName(fa.X.Type()), "nodePipeline")
+	}
+	for _, f := range w.FuncsIn("pkg/redis/client/cluster") {
+		for _, in := range core.OwnInstrs(f) {
+			sends := false
+			switch x := in.(type) {
+			case *ssa.Send:
+				sends = isQueue(x.Chan)
+			case *ssa.Select:
+				for _, st := range x.States {
+					if st.Dir == types.SendOnly && isQueue(st.Chan) {
+						sends = true
+					}
+				}
+			}
+			if !sends {
+				continue
+			}
+			n++
+			// in a closure: is it run as a goroutine / deferred to later?
+			async := false
+			for g := f; g.Parent() != nil; g = g.Parent() {
+				for _, i2 := range core.OwnInstrs(g.Parent()) {
+					switch y := i2.(type) {
+					case *ssa.Go:
+						if mc, ok := y.Call.Value.(*ssa.MakeClosure); ok && mc.Fn == ssa.Value(g) {
+							async = true
+						}
+					case *ssa.Call:
+						if strings.Contains(core.ResolveCall(y).Name, "SafeGo") {
+							for _, a := range y.Call.Args {
+								if mc, ok := a.(*ssa.MakeClosure); ok && mc.Fn == ssa.Value(g) {
+									async = true
+								}
+							}
+						}
+					}
+				}
+			}
+			r.Check(!async, shortName(core.FuncName(outermost(f)))+"/enqueue-in-caller-order", in.Pos(), "a request is put into a node's queue from a background goroutine: requests no longer enter the queue in the order they were submitted, so two writes of one key can reach the slot owner inverted")
+		}
+	}
+	if n == 0 {
+		r.Fail("nodePipeline/enqueue-in-caller-order", token.NoPos, "no send into a node's request queue found")
+	}
 }
